@@ -1,6 +1,7 @@
 package main
 
 import (
+	"net"
 	"context"
 	"encoding/json"
 	"fmt"
@@ -343,6 +344,60 @@ func buildInputs(uniq string, r *rand.Rand, thorough bool) []Input {
 	add(Input{Name: "grpc CompleteTask:all-zero", Send: func(s *Server) InReply { return grpcIn(s.Tasks().CompleteTask(ctx(), &pb.CompleteTaskRequest{})) }})
 	add(Input{Name: "grpc HeartbeatTasks:all-zero", Send: func(s *Server) InReply { return grpcIn(s.Tasks().HeartbeatTasks(ctx(), &pb.HeartbeatTasksRequest{})) }})
 	add(Input{Name: "grpc HeartbeatLocks:all-zero", Send: func(s *Server) InReply { return grpcIn(s.Locks().HeartbeatLocks(ctx(), &pb.HeartbeatLocksRequest{})) }})
+	// ---- family E: sequences of individually legal requests whose combination is the hostile input
+	post := func(s *Server, path string, body map[string]any) HTTPReply { return s.JSON("POST", path, nil, body) }
+	// derived registration ids are plain concatenations: root "a" + leaf "b:c" and root "a:b" + leaf "c" share "__resume:a:b:c"
+	for _, kind := range []string{"callback", "subscription"} {
+		kind := kind
+		u := "seq" + kind[:1] + gid
+		// callback: "__resume:<root>:<leaf>"; subscription: "__notify:<promise>:<id>"
+		leaf1, root1, leaf2, root2 := "b:c"+u, u+"a", "c"+u, u+"a:b"
+		sub1, sub2 := "", ""
+		if kind == "subscription" {
+			leaf1, sub1, leaf2, sub2 = u+"a", "b:c", u+"a:b", "c"
+		}
+		reg := func(s *Server, leaf, root, sid string) {
+			if kind == "callback" {
+				post(s, "/callbacks", map[string]any{"Id": "x", "promiseId": leaf, "rootPromiseId": root, "timeout": soon() + 3600000, "recv": "default"})
+			} else {
+				post(s, "/subscriptions", map[string]any{"id": sid, "promiseId": leaf, "timeout": soon() + 3600000, "recv": "default"})
+			}
+		}
+		add(Input{Name: "seq:derived-id-collision:" + kind, Marker: u, Setup: func(s *Server) {
+			post(s, "/promises", map[string]any{"id": leaf1, "timeout": soon() + 3600000})
+			post(s, "/promises", map[string]any{"id": leaf2, "timeout": soon() + 3600000})
+			reg(s, leaf1, root1, sub1)
+			s.JSON("PATCH", "/promises/"+leaf1, nil, map[string]any{"state": "RESOLVED"})
+			reg(s, leaf2, root2, sub2)
+		}, Send: func(s *Server) InReply {
+			rp := s.JSON("PATCH", "/promises/"+leaf2, nil, map[string]any{"state": "RESOLVED"})
+			return InReply{Proto: "http", Err: rp.Err, Status: rp.Status, Body: clipName(string(rp.Body))}
+		}})
+	}
+	// a listener of a poll group connects and hangs up; then a task is addressed to that (now empty) group
+	add(Input{Name: "seq:poll-group-emptied-then-addressed", Setup: func(s *Server) {
+		if conn, err := net.DialTimeout("tcp", s.pollAddr, 2*time.Second); err == nil {
+			fmt.Fprintf(conn, "GET /emptied%s/w1 HTTP/1.1\r\nHost: x\r\nAccept: text/event-stream\r\n\r\n", gid)
+			time.Sleep(150 * time.Millisecond)
+			conn.Close()
+			time.Sleep(150 * time.Millisecond)
+		}
+	}, Send: func(s *Server) InReply {
+		rp := post(s, "/promises", map[string]any{"id": "emptied-" + gid, "timeout": soon() + 3600000, "tags": map[string]string{"resonate:invoke": "poll://emptied" + gid + "/w2"}})
+		time.Sleep(400 * time.Millisecond) // a few dispatch cycles
+		return InReply{Proto: "http", Err: rp.Err, Status: rp.Status, Body: clipName(string(rp.Body))}
+	}})
+	// cron descriptors that the parser library does not survive
+	for _, cr := range []string{"TZ=UTC", "CRON_TZ=UTC", "TZ=", "TZ=UTC ", "@every", "@every -1s", "@every 0s", "* * * * * * *", "60 * * * * *", "*/0 * * * *", "0-0/0 * * * *", "? ? ? ? ?", "L * * * *", "1,,2 * * * *", "TZ=Nowhere/Land * * * * *"} {
+		cr := cr
+		add(Input{Name: "grpc CreateSchedule:cron=" + cr, Send: func(s *Server) InReply {
+			return grpcIn(s.Schedules().CreateSchedule(ctx(), &pb.CreateScheduleRequest{Id: "gcr-" + gid, Cron: cr, PromiseId: "x.{{.timestamp}}", PromiseTimeout: 10}))
+		}})
+		add(Input{Name: "POST /schedules:cron=" + cr, Send: func(s *Server) InReply {
+			rp := post(s, "/schedules", map[string]any{"id": "hcr-" + gid, "cron": cr, "promiseId": "x.{{.timestamp}}", "promiseTimeout": 10})
+			return InReply{Proto: "http", Err: rp.Err, Status: rp.Status, Body: clipName(string(rp.Body))}
+		}})
+	}
 	_ = vh.Hash
 	if !thorough {
 		// quick: a value-determined subset of the mutation grid (every 3rd of family A), all of B-D
